@@ -51,7 +51,9 @@ inductive IStep (c : ICfg) (s : IT) : IT → Prop where
   | mergeStop (q : List (Option Nat)) (hres : s.result = none) (hq : s.statesQ = none :: q) :
       IStep c s { s with statesQ := q,
                          result := some (if c.strict && s.merged.length != c.n then none else some s.merged) }
-  | env (ws' : List Worker) : IStep c s { s with ws := ws' }
+  | env (ws' : List Worker)
+      (h : (∃ w, crashW c.env s.ws w = some ws') ∨ (∃ w, rejoinW s.ws w = some ws')) :
+      IStep c s { s with ws := ws' }
 
 theorem itStep_sound {c : ICfg} {s s' : IT} {l : ILabel} (hs : itStep c s l = some s') : IStep c s s' := by
   cases l with
@@ -145,13 +147,13 @@ theorem itStep_sound {c : ICfg} {s s' : IT} {l : ILabel} (hs : itStep c s l = so
   | crash w =>
     cases hx : crashW c.env s.ws w with
     | none => simp [itStep, hx] at hs
-    | some ws' => simp [itStep, hx] at hs; subst hs; exact .env ws'
+    | some ws' => simp [itStep, hx] at hs; subst hs; exact .env ws' (Or.inl ⟨w, hx⟩)
   | rejoin w =>
     cases hx : rejoinW s.ws w with
     | none => simp [itStep, hx] at hs
     | some ws' =>
       simp only [itStep, hx] at hs
       split at hs <;> simp at hs
-      subst hs; exact .env ws'
+      subst hs; exact .env ws' (Or.inr ⟨w, hx⟩)
 
 end MlModel.Sched
